@@ -95,7 +95,8 @@ def history(draw):
             ops.append((k, draw(st.sampled_from(["direct", "facade"]))))
         else:
             ops.append((k,))
-    return {"detect": draw(st.booleans()), "rw": draw(st.booleans()), "buffering": draw(st.sampled_from([-1, 0])),
+    return {"symlink": draw(st.integers(0, 3)) == 0,
+            "detect": draw(st.booleans()), "rw": draw(st.booleans()), "buffering": draw(st.sampled_from([-1, 0])),
             "end": draw(st.sampled_from(["close", "with", "with_exc", "facade_with", "close_armed"])), "ops": ops}
 
 
@@ -114,9 +115,19 @@ def run_history(case):
     ARMED_OPEN[0] = False
     _N[0] += 1
     path = transports.node_path("c15-%d" % (_N[0] % 8))
-    if os.path.exists(path):
+    if os.path.lexists(path):
         os.unlink(path)
-    transports.make_node(path)
+    node = path
+    if case.get("symlink"):
+        # the device path is an alias (like /dev/disk/by-id/...): replug/unplug act on the node behind it;
+        # "the node that currently exists at the device path" is what the path resolves to
+        node = transports.node_path("c15-%d-node" % (_N[0] % 8))
+        if os.path.lexists(node):
+            os.unlink(node)
+        transports.make_node(node)
+        os.symlink(node, path)
+    else:
+        transports.make_node(path)
     queue = []
     sgio_mod.routes[path] = lambda cdb, dout, din: queue.pop(0) if queue else (0, None)
     state = {"nt": False, "pending_fresh": False, "events_since_exec": set(), "execs": 0, "fired": 0}
@@ -193,19 +204,19 @@ def run_history(case):
             if k.startswith("exec"):
                 do_exec(dev, s, op)
             elif k == "replug":
-                if os.path.exists(path):
-                    os.unlink(path)
-                transports.make_node(path)
+                if os.path.exists(node):
+                    os.unlink(node)
+                transports.make_node(node)
                 state["events_since_exec"].add("replug")
                 cls.append("replug")
             elif k == "unplug":
-                if os.path.exists(path):
-                    os.unlink(path)
+                if os.path.exists(node):
+                    os.unlink(node)
                     state["events_since_exec"].add("unplug")
                     cls.append("unplug")
             elif k == "plug":
-                if not os.path.exists(path):
-                    transports.make_node(path)
+                if not os.path.exists(node):
+                    transports.make_node(node)
                     state["events_since_exec"].add("replug")
             elif k == "arm":
                 ARMED[0] = True
@@ -281,11 +292,14 @@ def run_history(case):
             except Exception:  # noqa
                 pass
         sgio_mod.routes.pop(path, None)
-        if os.path.exists(path):
-            os.unlink(path)
+        for x in (path, node):
+            if os.path.lexists(x):
+                os.unlink(x)
         ARMED[0] = False
         ARMED_OPEN[0] = False
     cls.append("detect_on" if case["detect"] else "detect_off")
+    if case.get("symlink"):
+        cls.append("symlink_path")
     cls.append("end_" + end)
     return state["nt"], sorted(set(cls))
 
@@ -381,6 +395,6 @@ def replay(ctx, subject, case):
 
 
 def floors(tier, classes, subjects, evaluations, distinct):
-    return ["class %s never generated" % c for c in ("replug", "unplug", "armed", "detect_on", "detect_off",
+    return ["class %s never generated" % c for c in ("replug", "unplug", "armed", "detect_on", "detect_off", "symlink_path",
                                                       "end_with_exc", "end_facade_with", "iscsi_end_with_exc")
             if not classes.get(c)]
